@@ -1,10 +1,10 @@
 (* C12 -- A pooled message has one owner at a time.
-   Statements only; proofs in Pool/Proofs.v, Pool/Paths.v, Pool/Writer.v, Pool/Use.v, Pool/BoundedProofs.v.  PARTIAL by design: the
+   Statements only; proofs in Pool/Proofs.v, Pool/Paths.v, Pool/Writer.v, Pool/Use.v, Pool/Expiry.v, Pool/BoundedProofs.v.  PARTIAL by design: the
    theorems cover the ownership automaton, the library's paths as modelled in Pool/Model.v, every n-ary
    interleaving of them and the pool's counter; that the Go code has no OTHER path is established only by
    running the monitor on the lifecycle traces of real executions. *)
 From Coq Require Import ZArith NArith List Bool.
-From GoCoap Require Import Pool.Model Pool.Spec Pool.Proofs Pool.Writer Pool.Paths Pool.Use Pool.Bounded Pool.BoundedProofs.
+From GoCoap Require Import Pool.Model Pool.Spec Pool.Proofs Pool.Writer Pool.Paths Pool.Use Pool.Expiry Pool.Bounded Pool.BoundedProofs.
 Import ListNotations.
 Open Scope Z_scope.
 
@@ -272,3 +272,55 @@ Example C12_instance_use :
     [Use 9; Use 9; Use 9; AppRel 9; Rel 9; Rec 9]) /\
   (check (g_trace (grun true 9 [1; 1; 1; 1; 1; 1; 1; 1; 0; 0; 0; 0; 0; 1]%nat (ginit [handle_continue_unlocked_prog 2]))) = 7%N).
 Proof. split; [reflexivity|]. split; [reflexivity|]. split; [repeat constructor|]. split; vm_compute; reflexivity. Qed.
+
+(* ---- round 4: the expiry sweep of net/blockwise against the handlers of the blocks of one transfer ---- *)
+
+(* as the code is (the onExpire callback of a receiving-cache entry leaves the partially received message alone): any
+   number of handlers, any amount of work each, any of them carrying the last block, the sweep whenever it likes,
+   every schedule - accepted, class 0 *)
+Theorem C12_expiry_keep_safe : forall c progs sched,
+  accepted (x_trace (xrun SwKeep c sched (xinit progs))) /\ c12_class (x_trace (xrun SwKeep c sched (xinit progs))) = 0%N.
+Proof. exact expiry_keep_safe. Qed.
+Print Assumptions C12_expiry_keep_safe.
+
+(* the guard lets one handler at a time work on the message (and lend it to the application) *)
+Theorem C12_expiry_guard_exclusive : forall c progs sched j1 j2,
+  let st := xrun SwKeep c sched (xinit progs) in
+  inside (x_hs st j1) = true -> inside (x_hs st j2) = true -> j1 = j2.
+Proof. exact expiry_guard_exclusive. Qed.
+Print Assumptions C12_expiry_guard_exclusive.
+
+(* the "leak fix" (onExpire gives the message back to the pool), with or without taking the guard first: for every
+   assignment of work to the handlers a schedule with a read of the released message *)
+Theorem C12_expiry_release_refuted : forall c guarded progs, exists sched,
+  c12_class (x_trace (xrun (SwRelease guarded) c sched (xinit progs))) = 7%N.
+Proof. exact expiry_release_refuted. Qed.
+Print Assumptions C12_expiry_release_refuted.
+
+(* without the guard also while handler 0 HOLDS the guard, in the middle of its work *)
+Theorem C12_expiry_release_under_guard_refuted : forall c progs k, fst (progs O) = S k -> exists sched,
+  let st := xrun (SwRelease false) c sched (xinit progs) in
+  x_guard st = Some 1%nat /\ c12_class (x_trace st) = 7%N.
+Proof. exact expiry_release_under_guard_refuted. Qed.
+Print Assumptions C12_expiry_release_under_guard_refuted.
+
+(* ... unnoticed whenever no handler is between its lookup and its end when the sweep looks at the entry *)
+Theorem C12_expiry_release_unnoticed : forall m c progs s1 s2, ~ In O s1 ->
+  (forall j, quiescent (x_hs (xrun m c s1 (xinit progs)) j) = true) ->
+  accepted (x_trace (xrun m c (s1 ++ O :: s2) (xinit progs))).
+Proof. exact expiry_release_unnoticed. Qed.
+Print Assumptions C12_expiry_release_unnoticed.
+
+(* two handlers (3 accesses, middle block; 2 accesses, last block) and the sweep, one of the schedules: handler 0 holds the
+   guard when the sweep removes the entry, handler 1 waits behind it, completes the message and lends it to the
+   application - accepted as the code is, class 7 with the release in the callback; a sweep over an entry nobody works on
+   releases the message unnoticed *)
+Example C12_instance_expiry :
+  let progs := fun j : nat => match j with O => (3%nat, false) | _ => (2%nat, true) end in
+  let sched := [1; 1; 1; 1; 2; 2; 0; 0; 0; 0; 1; 1; 1; 1; 2; 2; 2; 2; 2; 2; 2; 2]%nat in
+  (x_trace (xrun SwKeep 7 sched (xinit progs)) =
+     [Use 7; Use 7; Use 7; Use 7; Use 7; Use 7; Use 7; Hold 7; Unhold 7 true]) /\
+  (check (x_trace (xrun SwKeep 7 sched (xinit progs))) = 0%N) /\
+  (check (x_trace (xrun (SwRelease false) 7 sched (xinit progs))) = 7%N) /\
+  (check (x_trace (xrun (SwRelease false) 7 [0; 0; 0; 0; 1; 1]%nat (xinit progs))) = 0%N).
+Proof. vm_compute. repeat split. Qed.
